@@ -1,7 +1,7 @@
 (* The backward scheduler (Model/Alap.v) inherits every final-state theorem of the forward scheduler
    through the time mirror: slot s <-> n-1-s, boundary k <-> n-k. *)
 From Coq Require Import List Bool Arith ZArith Lia.
-Require Import SP.Model.Sched SP.Model.Alap SP.Proofs.SchedInv SP.Proofs.SchedWalk SP.Proofs.SchedMain SP.Proofs.SchedFinal.
+Require Import SP.Model.Sched SP.Model.Alap SP.Proofs.SchedInv SP.Proofs.SchedWalk SP.Proofs.SchedMain SP.Proofs.SchedFinal SP.Proofs.SchedTeam.
 Import ListNotations.
 
 Section Alap.
@@ -212,13 +212,68 @@ Section Alap.
     now rewrite (proj1 (proj2 (lim_of_mirror l))).
   Qed.
 
-  Theorem alap_limits l k : usage p {| bookings := alap_bookings p; placed := [] |} l k <= l_value (lim_of p l).
+  Lemma alap_usage_eq l k : usage p {| bookings := alap_bookings p; placed := [] |} l k = usage q (aschedule p) l k.
   Proof.
     unfold usage. cbn [bookings]. unfold alap_bookings. rewrite filter_map_comm, map_length.
-    rewrite <- (proj1 (lim_of_mirror l)).
-    pose proof (inv_limit q _ (schedule_inv q) l k) as H. unfold usage in H.
-    erewrite filter_ext; [exact H|]. intros y. cbn beta. rewrite m_counts. cbn [unflip_booking b_slot].
+    f_equal. apply filter_ext. intros y. cbn beta. rewrite m_counts. cbn [unflip_booking b_slot].
     now rewrite (proj2 (proj2 (lim_of_mirror l))).
+  Qed.
+
+  Theorem alap_limits l k : usage p {| bookings := alap_bookings p; placed := [] |} l k <= l_value (lim_of p l).
+  Proof.
+    rewrite alap_usage_eq, <- (proj1 (lim_of_mirror l)). apply (inv_limit q _ (schedule_inv q)).
+  Qed.
+
+  (* ------------------------------------------------------------ C08, backward, teams and limits *)
+  Lemma m_team_count l t rs : team_count q l t rs = team_count p l t rs.
+  Proof.
+    unfold team_count. f_equal. apply filter_ext. intros r. rewrite <- m_counts. reflexivity.
+  Qed.
+
+  Theorem alap_no_idle_team t f e : alap_leaf_dates p t = Some (f, e) -> t_need (task_of p t) <> 0 ->
+    NoDup (t_team (task_of p t)) ->
+    exists dl, e <= dl /\ dl <= n /\
+      (forall s, t_pin (task_of p t) = Some s -> s <= n -> dl = s) /\
+      (t_pin (task_of p t) = None -> forall d, In d (t_deps (task_of p t)) ->
+         exists s' e', alap_dates p (d_task d) = Some (s', e') /\ dl + d_gap d <= (if d_onstart d then e' else s')) /\
+      forall x, f <= x -> x < dl ->
+        (forall r, In r (t_team (task_of p t)) -> In (mk t r x) (alap_bookings p)) \/
+        exists r, In r (t_team (task_of p t)) /\
+          (r_work (res_of p r) x = false \/
+           (exists y, In y (alap_bookings p) /\ b_res y = r /\ b_slot y = x /\ b_task y <> t) \/
+           (exists l, In l (limits_of p t r) /\
+              l_value (lim_of p l) <
+              usage p {| bookings := alap_bookings p; placed := [] |} l (l_period (lim_of p l) x) + team_count p l t (t_team (task_of p t)))).
+  Proof.
+    unfold alap_leaf_dates, alap_dates. intros Ht Hn Hnd.
+    destruct (leaf_dates (aschedule p) t) as [[f' e']|] eqn:E; [|discriminate].
+    cbn in Ht. injection Ht as <- <-.
+    destruct (mirrored_dates_in_horizon _ _ _ E) as [H1 H2].
+    assert (Hn' : t_need (task_of q t) <> 0) by now rewrite m_need.
+    assert (Hnd' : NoDup (t_team (task_of q t))) by now rewrite m_team.
+    destruct (frame q t f' e' E) as [_ Fr]. destruct (Fr Hn') as (Hlt & _ & _).
+    destruct (no_idle_team q t f' e' E Hn' Hnd') as (b & Hb & Hpinb & Hdeps & Hslots).
+    exists (n - b). split; [lia|]. split; [lia|]. split; [|split].
+    - intros s Hs Hsn. rewrite (Hpinb (n - s)); [lia|]. rewrite m_pin, Hs. reflexivity.
+    - intros Hpin d Hd. rewrite <- m_deps in Hd.
+      assert (Hpin' : t_pin (task_of q t) = None) by (rewrite m_pin, Hpin; reflexivity).
+      destruct (Hdeps Hpin' d Hd) as (s'' & e'' & D1 & D2). unfold aschedule. rewrite D1. cbn.
+      exists (n - e''), (n - s''). split; [reflexivity|]. destruct (d_onstart d); lia.
+    - intros x Hx1 Hx2. assert (Hxn : x < n) by lia.
+      assert (Hb1 : b <= flip n x) by (unfold flip; lia). assert (Hb2 : flip n x < e') by (unfold flip; lia).
+      destruct (Hslots _ Hb1 Hb2) as [L|(r & Hr & [L|[(y & Y1 & Y2 & Y3 & Y4)|(l & Hl & Hu)]])].
+      + left. intros r Hr. rewrite <- (flip_flip x Hxn). apply in_alap. apply L. now rewrite m_team.
+      + right. exists r. rewrite m_team in Hr. split; [exact Hr|]. left.
+        rewrite m_work in L. rewrite flip_flip in L by exact Hxn.
+        assert (Hf : (flip n x <? n) = true) by (apply Nat.ltb_lt; unfold flip; lia). rewrite Hf in L. exact L.
+      + right. exists r. rewrite m_team in Hr. split; [exact Hr|]. right. left.
+        exists (unflip_booking n y). split; [unfold alap_bookings; now apply in_map|].
+        cbn. split; [exact Y2|]. split; [rewrite Y3; now apply flip_flip|exact Y4].
+      + right. exists r. rewrite m_team in Hr. split; [exact Hr|]. right. right.
+        exists l. rewrite m_limits_of in Hl. split; [exact Hl|].
+        rewrite alap_usage_eq. rewrite (proj1 (lim_of_mirror l)) in Hu.
+        rewrite (proj2 (proj2 (lim_of_mirror l))), flip_flip in Hu by exact Hxn.
+        rewrite m_team_count, m_team in Hu. exact Hu.
   Qed.
   (* ------------------------------------------------------------ C10, backward *)
   Theorem alap_container_summary c : t_leaf (task_of p c) = false -> t_leaves (task_of p c) <> [] ->
